@@ -22,7 +22,10 @@ PYTHONPATH="$wt" /venv/bin/python "$demo" > "$out/demo_without_change.txt" 2>&1;
 git apply "$out/patch.diff"
 echo "== check $prop against the change applied to /repo"
 git -C /repo apply "$out/patch.diff" || { echo "patch does not apply to /repo"; exit 2; }
-(cd "$verif" && ./check "$prop" --tier quick > "$out/check_output.txt" 2>&1; echo "check exit=$?" | tee -a "$out/check_output.txt")
+# (evidence and replay files of this run go to a scratch directory: the committed evidence describes the unchanged tree)
+scratch=$(mktemp -d /tmp/pyvc-seedout.XXXX)
+(cd "$verif" && VERIF_OUT="$scratch" ./check "$prop" --tier quick > "$out/check_output.txt" 2>&1; echo "check exit=$?" | tee -a "$out/check_output.txt")
+rm -rf "$scratch"
 git -C /repo checkout -- .
 grep -c "^VIOLATION" "$out/check_output.txt" | sed 's/^/violation lines: /'
 grep "^FAILED-OBLIGATION" "$out/check_output.txt" | head -5
